@@ -478,6 +478,14 @@ def run(ctx):
             continue
         r = ctx.rng("c07emp", j)
         sizes = r.integers(0, int(r.integers(1, 9)), int(r.integers(1, 200)))
+        if j % 4 == 3:
+            # catalog sizes over the whole stated range of counts (up to 1e5): neighbouring sizes n-1, n, n+1 around a base that is large
+            # enough for a RELATIVE closeness test to confuse them (1e5 +- 1 differ by 1e-5 of their value), ints and floats
+            base = int(r.choice([100000, 99999, 65536, 16385, 1000, 31622]))
+            sizes = base + sizes - int(sizes.max()) // 2
+            sizes = numpy.maximum(sizes, 0)
+            if j % 8 == 7:
+                sizes = sizes.astype(float)
         for v in (int(sizes.min()) - 1, int(sizes.min()), int(sizes.max()), int(sizes.max()) + 1, int(r.choice(sizes))):
             ex_emp(ctx, sizes, v)
             ctx.count(1)
